@@ -59,6 +59,22 @@ impl Program {
                 units.push(Unit { name: name.clone(), text: format!("{ann}template<{params}> struct {name} {{ {body} }};"), needs: vec![], is_template: true, opaque, kind: "class" });
                 continue;
             }
+            if choice < 28 {
+                // an enum (usable by value as a member type)
+                let neg = if rng.chance(1, 3) { " = -3" } else { "" };
+                units.push(Unit { name: name.clone(), text: format!("enum {name} {{ {name}_A{neg}, {name}_B = 7, {name}_C }};"), needs: vec![], is_template: false, opaque: false, kind: "enum" });
+                continue;
+            }
+            if choice < 33 && !anyty.is_empty() {
+                // a function or a variable using earlier types
+                let t = *rng.pick(&anyty);
+                let u = *rng.pick(&anyty);
+                let tn = units[t].name.clone();
+                let un = units[u].name.clone();
+                let text = if rng.chance(1, 2) { format!("{tn}* fn_{name}({un}* a, int b, double c);") } else { format!("extern {tn} var_{name};") };
+                units.push(Unit { name: name.clone(), text, needs: vec![t, u], is_template: false, opaque: false, kind: "decl" });
+                continue;
+            }
             // a class / struct / union
             let is_union = rng.chance(1, 8);
             let mut needs = vec![];
@@ -110,8 +126,12 @@ impl Program {
                     let nargs = *rng.pick(&[0usize, 2, 12, 13]);
                     let args: Vec<String> = (0..nargs).map(|_| "int".to_owned()).collect();
                     body.push_str(&format!("void (*{fname})({}); ", args.join(", ")));
-                } else {
+                } else if c < 97 {
                     body.push_str(&format!("unsigned {fname} : {}; ", 1 + rng.below(31)));
+                } else if rng.chance(1, 2) {
+                    body.push_str(&format!("struct {{ int a{f}; {} b{f}; }} {fname}; ", rng.pick(SCALARS)));
+                } else {
+                    body.push_str(&format!("union {{ int x{f}; {} y{f}; }}; ", rng.pick(SCALARS)));
                 }
             }
             let opaque = rng.chance(1, 8);
